@@ -925,7 +925,7 @@ class LinearOperator(object):
         # We define it here so that we can map the torch function torch.abs to the LinearOperator method
         raise NotImplementedError(f"torch.abs({self.__class__.__name__}) is not implemented.")
 
-    @_implements_symmetric(torch.add)
+    @_implements(torch.add)
     def add(
         self: Float[LinearOperator, "*batch M N"],
         other: Union[Float[Tensor, "*batch M N"], Float[LinearOperator, "*batch M N"]],
@@ -1796,7 +1796,7 @@ class LinearOperator(object):
     def is_square(self) -> bool:
         return self.matrix_shape[0] == self.matrix_shape[1]
 
-    @_implements_symmetric(torch.isclose)
+    @_implements(torch.isclose)
     def isclose(self, other, rtol: float = 1e-05, atol: float = 1e-08, equal_nan: bool = False) -> Tensor:
         return self._isclose(other, rtol=rtol, atol=atol, equal_nan=equal_nan)
 
@@ -2936,7 +2936,6 @@ class LinearOperator(object):
     ) -> Float[LinearOperator, "... M N"]:
         return self.mul(other)
 
-    @_implements_second_arg(torch.Tensor.add)
     def __radd__(
         self: Float[LinearOperator, "*batch #M #N"],
         other: Union[Float[torch.Tensor, "*batch2 #M #N"], Float[LinearOperator, "*batch2 #M #N"], float],
@@ -2949,13 +2948,34 @@ class LinearOperator(object):
     ) -> Float[LinearOperator, "... M N"]:
         return self.mul(other)
 
-    @_implements_second_arg(torch.sub)
-    @_implements_second_arg(torch.Tensor.sub)
     def __rsub__(
         self: Float[LinearOperator, "*batch #M #N"],
         other: Union[Float[torch.Tensor, "*batch2 #M #N"], Float[LinearOperator, "*batch2 #M #N"], float],
     ) -> Float[LinearOperator, "... M N"]:
         return self.mul(-1) + other
+
+    @_implements_second_arg(torch.add)
+    @_implements_second_arg(torch.Tensor.add)
+    def _add_second_arg(self, other, alpha=None):
+        # torch.add(other, self, alpha=alpha) = other + alpha * self
+        if alpha is None:
+            return self + other
+        else:
+            return self.mul(alpha) + other
+
+    @_implements_second_arg(torch.sub)
+    @_implements_second_arg(torch.Tensor.sub)
+    def _sub_second_arg(self, other, alpha=None):
+        # torch.sub(other, self, alpha=alpha) = other - alpha * self
+        if alpha is None:
+            return self.mul(-1) + other
+        else:
+            return self.mul(alpha * -1) + other
+
+    @_implements_second_arg(torch.isclose)
+    def _isclose_second_arg(self, other, rtol: float = 1e-05, atol: float = 1e-08, equal_nan: bool = False):
+        # torch.isclose(other, self): the tolerance is relative to self
+        return torch.isclose(to_dense(other), to_dense(self), rtol=rtol, atol=atol, equal_nan=equal_nan)
 
     @classmethod
     def __torch_function__(
